@@ -119,6 +119,7 @@ pub fn gen_case(prop: &str, rng: &mut Rng) -> Case {
                     Step::UpdateIf(i, rng.below(4) as u8, rng.chance(1, 2))
                 }
             }
+            3 if flavour == Flavour::Async && rng.chance(1, 4) => Step::PollUnderWrite(i, j, rng.below(3) as u8),
             3 => {
                 if rng.chance(3, 4) {
                     Step::Guard(i, guard_ops(rng))
@@ -127,6 +128,15 @@ pub fn gen_case(prop: &str, rng: &mut Rng) -> Case {
                 } else {
                     Step::CountsGuarded(i, rng.below(4) as u8, rng.below(4) as u8)
                 }
+            }
+            4 if outsized && rng.chance(1, 3) => {
+                let big = |rng: &mut Rng| match rng.below(8) {
+                    0 => 0,
+                    1..=4 => rng.below(40) as u32,
+                    5 | 6 => 60 + rng.below(300) as u32,
+                    _ => 65_530 + rng.below(4_000) as u32,
+                };
+                Step::Burst(i, big(rng), big(rng), big(rng))
             }
             4 => {
                 if rng.chance(1, 2) {
